@@ -44,6 +44,13 @@ type c12Emit struct {
 	blobs [][]byte
 	bls   map[string]string // compressed bytes -> canonical re-encoding (decodable points only)
 	blsK  []string
+	lite  bool // dumps used only for comparing objects: skip the BLS decoding
+}
+
+func c12Lite() *c12Emit {
+	e := c12NewEmit()
+	e.lite = true
+	return e
 }
 
 func c12NewEmit() *c12Emit {
@@ -126,6 +133,9 @@ func (e *c12Emit) Cat(b []byte) string {
 }
 
 func (e *c12Emit) noteBLS(sig []byte) {
+	if e.lite {
+		return
+	}
 	k := string(sig)
 	if _, ok := e.bls[k]; ok {
 		return
@@ -546,15 +556,17 @@ func (c12Sender) RequestBlock(context.Context, hotstuff.Hash) (*hotstuff.Block, 
 type c12Universe struct {
 	scheme string
 	n      int
-	auths  []*cert.Authority // auths[i] belongs to replica i+1
+	ids    []hotstuff.ID     // replica ids (contiguous 1..n, or sparse / large / agreeing in their low bits)
+	auths  []*cert.Authority // auths[i] belongs to replica ids[i]
 	aggAuth *cert.Authority  // replica 1 again (same keys)
 	chain  *blockchain.Blockchain
 	blocks []*hotstuff.Block // stored, certified chain (blocks[0] = genesis)
 	pcs    map[string]hotstuff.PartialCert
 }
 
-func c12NewUniverse(t *testing.T, scheme string, n int) *c12Universe {
-	u := &c12Universe{scheme: scheme, n: n, pcs: map[string]hotstuff.PartialCert{}}
+func c12NewUniverse(t *testing.T, scheme string, ids []hotstuff.ID) *c12Universe {
+	n := len(ids)
+	u := &c12Universe{scheme: scheme, n: n, ids: ids, pcs: map[string]hotstuff.PartialCert{}}
 	logger := logging.NewWithDest(io.Discard, "c12")
 	el := eventloop.New(logger, 16)
 	u.chain = blockchain.New(el, logger, c12Sender{})
@@ -573,10 +585,10 @@ func c12NewUniverse(t *testing.T, scheme string, n int) *c12Universe {
 		if err != nil {
 			t.Fatal(err)
 		}
-		infos[i] = &hotstuff.ReplicaInfo{ID: hotstuff.ID(i + 1), PubKey: keys[i].Public()}
+		infos[i] = &hotstuff.ReplicaInfo{ID: ids[i], PubKey: keys[i].Public()}
 	}
 	for i := 0; i < n; i++ {
-		cfg := core.NewRuntimeConfig(hotstuff.ID(i+1), keys[i])
+		cfg := core.NewRuntimeConfig(ids[i], keys[i])
 		for _, inf := range infos {
 			cfg.AddReplica(inf)
 		}
@@ -584,7 +596,7 @@ func c12NewUniverse(t *testing.T, scheme string, n int) *c12Universe {
 		if err != nil {
 			t.Fatal(err)
 		}
-		if err := cfg.SetReplicaMetadata(hotstuff.ID(i+1), cfg.ConnectionMetadata()); err != nil {
+		if err := cfg.SetReplicaMetadata(ids[i], cfg.ConnectionMetadata()); err != nil {
 			t.Fatal(err)
 		}
 		u.auths = append(u.auths, cert.NewAuthority(cfg, u.chain, base))
@@ -598,7 +610,7 @@ func c12NewUniverse(t *testing.T, scheme string, n int) *c12Universe {
 	}
 	for v := 1; v <= 3; v++ {
 		parent := u.blocks[len(u.blocks)-1]
-		b := hotstuff.NewBlock(parent.Hash(), qc, c12Batch(v, v), hotstuff.View(v), hotstuff.ID(1+v%n))
+		b := hotstuff.NewBlock(parent.Hash(), qc, c12Batch(v, v), hotstuff.View(v), ids[v%n])
 		u.chain.Store(b)
 		u.blocks = append(u.blocks, b)
 		qc = u.qcFor(b, all)
@@ -659,7 +671,7 @@ func (u *c12Universe) sign(i int, msg []byte) hotstuff.QuorumSignature {
 func (u *c12Universe) timeoutsFor(view hotstuff.View, signers []int, qcs []*hotstuff.QuorumCert, msgSig bool) []hotstuff.TimeoutMsg {
 	out := make([]hotstuff.TimeoutMsg, len(signers))
 	for j, i := range signers {
-		m := hotstuff.TimeoutMsg{ID: hotstuff.ID(i + 1), View: view, ViewSignature: u.sign(i, view.ToBytes()), SyncInfo: hotstuff.NewSyncInfo()}
+		m := hotstuff.TimeoutMsg{ID: u.ids[i], View: view, ViewSignature: u.sign(i, view.ToBytes()), SyncInfo: hotstuff.NewSyncInfo()}
 		if qcs != nil && qcs[j] != nil {
 			m.SyncInfo = hotstuff.NewSyncInfoWith(*qcs[j])
 		}
@@ -883,6 +895,75 @@ type c12H struct {
 	rt     *verifStream
 	fp     *verifStream
 	blsVer int
+	kept   []c12Kept // the last few decoded objects / encoded messages, re-examined after later conversions
+	hop2   int
+}
+
+// c12Kept remembers a decoded object and an encoded message together with what they looked like when
+// they were produced: a later, unrelated conversion must not change them (no shared scratch state).
+type c12Kept struct {
+	kind    string
+	y       any
+	dump    string
+	obs     c12Obs
+	pb      proto.Message
+	pbBytes []byte
+	meta    map[string]any
+}
+
+func c12Det(m proto.Message) []byte {
+	b, _ := proto.MarshalOptions{Deterministic: true}.Marshal(m)
+	return b
+}
+
+func (h *c12H) retain(kind string, y any, pb proto.Message, meta map[string]any) {
+	k := h.kinds[kind]
+	kp := c12Kept{kind: kind, y: y, pb: pb, meta: meta}
+	if y != nil {
+		kp.dump, kp.obs = k.dump(c12Lite(), y), k.obs(y)
+	}
+	if pb != nil {
+		kp.pbBytes = c12Det(pb)
+	}
+	h.kept = append(h.kept, kp)
+	if len(h.kept) > 3 {
+		h.kept = h.kept[1:]
+	}
+}
+
+// checkKept re-examines the retained objects after another conversion has run.
+func (h *c12H) checkKept(after string) {
+	keep := h.kept[:0]
+	for _, kp := range h.kept {
+		k := h.kinds[kp.kind]
+		ok := true
+		in := func() map[string]any {
+			m := map[string]any{"changed_after_converting_a": after}
+			for a, b := range kp.meta {
+				m[a] = b
+			}
+			return m
+		}
+		if kp.y != nil {
+			d := k.dump(c12Lite(), kp.y)
+			if d != kp.dump || c12ObsDiff(kp.obs, k.obs(kp.y)) != "" {
+				ok = false
+				m := in()
+				m["object_when_decoded"], m["object_now"] = c12Short(kp.dump), c12Short(d)
+				h.v.Oracle(false, "wire."+strings.ToLower(kp.kind)+":decoded-object-changed-by-later-conversion",
+					"an object decoded earlier changed when another message was converted (shared state between conversions)", m)
+			}
+		}
+		if kp.pb != nil && !bytes.Equal(c12Det(kp.pb), kp.pbBytes) {
+			ok = false
+			h.v.Oracle(false, "wire."+strings.ToLower(kp.kind)+":encoded-message-changed-by-later-conversion",
+				"a protobuf message produced earlier changed when another object was converted (shared state between conversions)", in())
+		}
+		if ok {
+			keep = append(keep, kp)
+		}
+	}
+	h.kept = keep
 }
 
 func c12Wire(k *c12Kind, pb proto.Message) (proto.Message, error) {
@@ -929,9 +1010,13 @@ func (h *c12H) roundTrip(u *c12Universe, kind string, x any, c c12Ctx, meta map[
 		v.Count("scheme." + u.scheme)
 	}
 	fpBase := "wire." + strings.ToLower(kind) + ":"
+	xs0, ox := k.dump(c12Lite(), x), k.obs(x) // the sender's object BEFORE it is encoded
 	pb1 := k.toPb(x)
 	if !pb1.ProtoReflect().IsValid() { // a nil message is the empty message on the wire
 		pb1 = k.newPb()
+	}
+	if pb1b := k.toPb(x); pb1b.ProtoReflect().IsValid() && !proto.Equal(pb1, pb1b) {
+		v.Oracle(false, fpBase+"encoding-not-repeatable", "XToProto of the same object twice gives different messages", meta)
 	}
 	pb2, err := c12Wire(k, pb1)
 	if err != nil {
@@ -943,13 +1028,20 @@ func (h *c12H) roundTrip(u *c12Universe, kind string, x any, c c12Ctx, meta map[
 	}
 	pbForDump := proto.Clone(pb2)
 	y, panicked := c12Catch(func() any { return k.fromPb(pb2, c) })
+	h.checkKept(kind)
 	e := c12NewEmit()
 	xs := k.dump(e, x)
 	ps := k.dumpPb(e, pbForDump)
-	ox := k.obs(x)
+	if xs != xs0 || c12ObsDiff(ox, k.obs(x)) != "" {
+		m := map[string]any{"object_before_encoding": c12Short(xs0), "object_after_encoding": c12Short(xs)}
+		for a, b := range meta {
+			m[a] = b
+		}
+		v.Oracle(false, fpBase+"sender-object-changed-by-encoding", "XToProto changed the object it was given", m)
+	}
 	key := kind + "|" + xs + "|" + k.ctxArgs(c, true)
 	nontrivial := len(ox.ps) > 0 && ox.ps[0].ok && len(ox.ps[0].ids) >= 1
-	v.Seen(key, nontrivial, meta)
+	fresh := v.Seen(key, nontrivial, meta)
 	if panicked {
 		v.Oracle(false, fpBase+"panic-on-wellformed-object", "XFromProto panicked on the wire form of a Go-constructed object", meta)
 		if k.wrapped {
@@ -1002,16 +1094,64 @@ func (h *c12H) roundTrip(u *c12Universe, kind string, x any, c c12Ctx, meta map[
 		if run {
 			vx, vy := k.verdict(u.auths[0], x), k.verdict(u.auths[0], y)
 			v.Count("verdict." + strings.SplitN(vx, ":", 2)[0])
+			if vx == "panic" && v.counts["verdict.panic"] <= 3 {
+				v.Note(fmt.Sprintf("info (C10 territory): cert.Authority panicked verifying a Go-constructed %s (%v, scheme %s); same before and after the round trip", kind, meta["what"], u.scheme))
+			}
 			if vx != vy {
 				ok = false
 				v.Oracle(false, fpBase+"verdict-changed", "cert.Authority verdict "+vx+" before, "+vy+" after the round trip", fail())
 			}
 		}
 	}
+	// ---- second hop: the decoded object is relayed / served again (fetch replies, Kauri) ----
+	pbY := k.toPb(y)
+	if !pbY.ProtoReflect().IsValid() {
+		pbY = k.newPb()
+	}
+	if pbY2, err := c12Wire(k, pbY); err == nil {
+		pbYDump := proto.Clone(pbY2)
+		z, zp := c12Catch(func() any { return k.fromPb(pbY2, c) })
+		switch {
+		case zp || c12None(z):
+			ok = false
+			v.Oracle(false, fpBase+"second-hop-object-lost", "re-encoding the decoded object and decoding it again panicked or gave nothing", fail())
+		default:
+			oz := k.obs(z)
+			if d := c12ObsDiff(ox, oz); d != "" {
+				ok = false
+				v.Oracle(false, fpBase+"second-hop-"+d, "observable differs after the decoded object was re-encoded and decoded again", fail())
+			}
+			if k.hash != nil {
+				hx, _, _ := k.hash(x)
+				if hz, _, _ := k.hash(z); hx != hz {
+					ok = false
+					v.Oracle(false, fpBase+"second-hop-hash-changed", "Hash() differs after the decoded object was re-encoded and decoded again", fail())
+				}
+			}
+			if h.hop2++; fresh && h.hop2%5 == 0 { // the relay's own round trip as a kernel case
+				e2 := c12NewEmit()
+				ys2 := k.dump(e2, y)
+				ps2 := k.dumpPb(e2, pbYDump)
+				zs := k.dump(e2, z)
+				if k.wrapped {
+					zs = "(Ok " + zs + ")"
+				}
+				m2 := map[string]any{"second_hop": true}
+				for a, b := range meta {
+					m2[a] = b
+				}
+				v.Count("rt.second-hop-cases")
+				v.Case(h.rt, e2.wrap("(RT_"+kind+" "+e2.table()+k.ctxArgs(c, true)+" "+ys2+" "+ps2+" "+zs+" "+e2.obs(oy)+" "+e2.obs(oz)+")"), m2)
+			}
+		}
+	}
 	if ok {
 		v.Oracle(true, "", "", nil)
 	}
-	v.Case(h.rt, e.wrap("(RT_"+kind+" "+e.table()+k.ctxArgs(c, true)+" "+xs+" "+ps+" "+ys+" "+e.obs(ox)+" "+e.obs(oy)+")"), meta)
+	h.retain(kind, y, pb1, meta)
+	if fresh {
+		v.Case(h.rt, e.wrap("(RT_"+kind+" "+e.table()+k.ctxArgs(c, true)+" "+xs+" "+ps+" "+ys+" "+e.obs(ox)+" "+e.obs(oy)+")"), meta)
+	}
 }
 
 // fromPbOnly feeds an arbitrary protobuf message (after a real Marshal/Unmarshal) to XFromProto.
@@ -1026,6 +1166,7 @@ func (h *c12H) fromPbOnly(kind string, pb proto.Message, c c12Ctx, meta map[stri
 	}
 	pbForDump := proto.Clone(pb2)
 	y, panicked := c12Catch(func() any { return k.fromPb(pb2, c) })
+	h.checkKept(kind)
 	e := c12NewEmit()
 	ps := k.dumpPb(e, pbForDump)
 	v.Seen("fp|"+kind+"|"+ps+k.ctxArgs(c, false), true, nil)
@@ -1052,6 +1193,7 @@ func (h *c12H) fromPbOnly(kind string, pb proto.Message, c c12Ctx, meta map[stri
 		hy, by, _ := k.hash(y)
 		v.Oracle(sha256.Sum256(by) == hy, "wire."+strings.ToLower(kind)+":hash-not-of-bytes", "Hash() of a decoded block is not SHA-256 of its ToBytes()", meta)
 	}
+	h.retain(kind, y, nil, meta)
 	v.Case(h.fp, e.wrap("(FP_"+kind+" "+e.table()+k.ctxArgs(c, false)+" "+ps+" "+ys+" "+e.obs(oy)+")"), meta)
 }
 
@@ -1083,8 +1225,8 @@ func (h *c12H) fromPbNil(kind string, nilMsg proto.Message) {
 // ---------------------------------------------------------------------------------------------
 // generators
 
-var c12Views = []hotstuff.View{0, 1, 2, 7, 1<<32 - 1, 1 << 32, 1<<63 - 1, 1 << 63, math.MaxUint64}
-var c12IDs = []hotstuff.ID{0, 1, 2, 3, 255, 256, 1<<31 - 1, 1 << 31, math.MaxUint32}
+var c12Views = []hotstuff.View{0, 1, 2, 7, 1 << 16, 1 << 31, 1<<32 - 1, 1 << 32, 1<<32 + 1, 1<<53 + 1, 1<<63 - 1, 1 << 63, math.MaxUint64}
+var c12IDs = []hotstuff.ID{0, 1, 2, 3, 255, 256, 257, 1<<15 - 1, 1 << 15, 65535, 65536, 65537, 1 << 24, 1<<24 + 1, 1<<31 - 1, 1 << 31, 1<<31 + 1, math.MaxUint32}
 
 func c12Times() []time.Time {
 	return []time.Time{
@@ -1160,6 +1302,9 @@ func (h *c12H) randView() hotstuff.View {
 }
 
 func (h *c12H) randID(n int) hotstuff.ID {
+	if h.v.rng.Intn(6) == 0 { // an id that agrees with a small one in its low 8 / 16 / 24 bits
+		return hotstuff.ID(1+h.v.rng.Intn(n)) + hotstuff.ID(1)<<uint(8*(1+h.v.rng.Intn(3)))
+	}
 	r := h.v.rng
 	switch r.Intn(5) {
 	case 0:
@@ -1206,7 +1351,7 @@ func (h *c12H) synthSig(u *c12Universe) hotstuff.QuorumSignature {
 	for i := range ids {
 		ids[i] = h.randID(u.n)
 		if i > 0 && r.Intn(5) == 0 {
-			ids[i] = ids[i-1]
+			ids[i] = ids[r.Intn(i)] // a repeated signer, adjacent or not
 		}
 		bs[i] = make([]byte, r.Intn(3)*r.Intn(40))
 		r.Read(bs[i])
@@ -1314,7 +1459,7 @@ func (h *c12H) randSync(u *c12Universe, mask int) hotstuff.SyncInfo {
 func (h *c12H) randTimeout(u *c12Universe, mask int, msgSig bool) hotstuff.TimeoutMsg {
 	i := h.v.rng.Intn(u.n)
 	view := h.randView()
-	m := hotstuff.TimeoutMsg{ID: hotstuff.ID(i + 1), View: view, ViewSignature: u.sign(i, view.ToBytes()), SyncInfo: h.randSync(u, mask)}
+	m := hotstuff.TimeoutMsg{ID: u.ids[i], View: view, ViewSignature: u.sign(i, view.ToBytes()), SyncInfo: h.randSync(u, mask)}
 	if msgSig {
 		m.MsgSignature = u.sign(i, m.ToBytes())
 	}
@@ -1323,7 +1468,7 @@ func (h *c12H) randTimeout(u *c12Universe, mask int, msgSig bool) hotstuff.Timeo
 
 func (h *c12H) randProposal(u *c12Universe, withAgg bool) hotstuff.ProposeMsg {
 	qc, _ := h.randQC(u)
-	id := hotstuff.ID(1 + h.v.rng.Intn(u.n))
+	id := u.ids[h.v.rng.Intn(u.n)]
 	if h.v.rng.Intn(6) == 0 {
 		id = h.randID(u.n)
 	}
@@ -1337,6 +1482,217 @@ func (h *c12H) randProposal(u *c12Universe, withAgg bool) hotstuff.ProposeMsg {
 		p.AggregateQC = &a
 	}
 	return p
+}
+
+// ---------------------------------------------------------------------------------------------
+// families: a base object and variants that differ from it in exactly one component (an equivocating
+// proposer's two blocks for one view, two certificates for one block, ...).  They are converted
+// interleaved (base, v1, base, v2, ...) so that anything remembered between conversions under too
+// small a key shows up.
+
+type c12Var struct {
+	kind string
+	x    any
+	c    c12Ctx
+	what string
+}
+
+func (h *c12H) families(u *c12Universe) [][]c12Var {
+	n := u.n
+	blk, other := u.blocks[2], u.blocks[1]
+	third := n - 1 // the signer that distinguishes the second quorum
+	qcA := u.qcFor(blk, []int{0, 1, 2})
+	qcB := u.qcFor(blk, []int{0, 1, third})
+	qcC := u.qcFor(blk, []int{2, 1, 0})
+	qcD := u.qcFor(blk, []int{1, 2})
+	ts := time.Unix(1_750_000_000, 123_456_789)
+	batch := c12Batch(2, 5)
+	var otherHash hotstuff.Hash
+	copy(otherHash[:], "another block hash, 32 bytes long")
+	mk := func(parent hotstuff.Hash, qc hotstuff.QuorumCert, b *clientpb.Batch, view hotstuff.View, prop hotstuff.ID, t time.Time) *hotstuff.Block {
+		x := hotstuff.NewBlock(parent, qc, b, view, prop)
+		x.SetTimestamp(t)
+		return x
+	}
+	var fams [][]c12Var
+	// blocks
+	fams = append(fams, []c12Var{
+		{"Block", mk(blk.Hash(), qcA, batch, 9, u.ids[1], ts), c12Ctx{}, "base"},
+		{"Block", mk(blk.Hash(), qcA, c12Batch(2, 6), 9, u.ids[1], ts), c12Ctx{}, "other commands (equivocation)"},
+		{"Block", mk(blk.Hash(), qcA, nil, 9, u.ids[1], ts), c12Ctx{}, "no commands"},
+		{"Block", mk(blk.Hash(), qcA, batch, 9, u.ids[1], ts.Add(1)), c12Ctx{}, "one nanosecond later"},
+		{"Block", mk(blk.Hash(), qcB, batch, 9, u.ids[1], ts), c12Ctx{}, "certificate of another quorum for the same block"},
+		{"Block", mk(blk.Hash(), qcC, batch, 9, u.ids[1], ts), c12Ctx{}, "certificate with the signers in another order"},
+		{"Block", mk(other.Hash(), qcA, batch, 9, u.ids[1], ts), c12Ctx{}, "other parent"},
+		{"Block", mk(blk.Hash(), qcA, batch, 10, u.ids[1], ts), c12Ctx{}, "next view"},
+		{"Block", mk(blk.Hash(), qcA, batch, 9+1<<32, u.ids[1], ts), c12Ctx{}, "view + 2^32"},
+		{"Block", mk(blk.Hash(), qcA, batch, 9, u.ids[2], ts), c12Ctx{}, "other proposer"},
+		{"Block", mk(blk.Hash(), qcA, batch, 9, u.ids[1]+1<<16, ts), c12Ctx{}, "proposer + 2^16"},
+	})
+	// certificates for one block
+	sigA := qcA.Signature()
+	fams = append(fams, []c12Var{
+		{"QC", qcA, c12Ctx{}, "base"},
+		{"QC", qcB, c12Ctx{}, "another quorum, same block"},
+		{"QC", qcC, c12Ctx{}, "same signers, other order"},
+		{"QC", qcD, c12Ctx{}, "two signers"},
+		{"QC", hotstuff.NewQuorumCert(sigA, blk.View()+1<<32, blk.Hash()), c12Ctx{}, "same signature, view + 2^32"},
+		{"QC", hotstuff.NewQuorumCert(sigA, blk.View(), otherHash), c12Ctx{}, "same signature, other hash"},
+		{"QC", hotstuff.NewQuorumCert(nil, blk.View(), blk.Hash()), c12Ctx{}, "unsigned"},
+	})
+	fams = append(fams, []c12Var{
+		{"PC", u.pcFor(blk, 0), c12Ctx{}, "base"},
+		{"PC", u.pcFor(blk, 1), c12Ctx{}, "other voter, same block"},
+		{"PC", u.pcFor(other, 0), c12Ctx{}, "same voter, other block"},
+		{"PC", hotstuff.NewPartialCert(u.pcFor(blk, 0).Signature(), otherHash), c12Ctx{}, "same signature, other hash"},
+	})
+	tcA := u.tcFor(7, []int{0, 1, 2})
+	fams = append(fams, []c12Var{
+		{"TC", tcA, c12Ctx{}, "base"},
+		{"TC", u.tcFor(7, []int{2, 1, 0}), c12Ctx{}, "same view, other order"},
+		{"TC", u.tcFor(7, []int{0, 1, third}), c12Ctx{}, "same view, another quorum"},
+		{"TC", u.tcFor(7+1<<32, []int{0, 1, 2}), c12Ctx{}, "view + 2^32"},
+		{"TC", hotstuff.NewTimeoutCert(tcA.Signature(), 8), c12Ctx{}, "same signature, next view"},
+	})
+	// aggregate QCs whose entries certify ONE block with different certificates
+	agg := func(qcs ...*hotstuff.QuorumCert) hotstuff.AggregateQC { return u.aggFor(8, []int{0, 1, 2}, qcs) }
+	aggSame, aggDistinct := agg(&qcA, &qcA, &qcA), agg(&qcA, &qcB, &qcC)
+	fams = append(fams, []c12Var{
+		{"Agg", aggSame, c12Ctx{}, "every sender reports the same certificate"},
+		{"Agg", aggDistinct, c12Ctx{}, "three different certificates for the same block"},
+		{"Agg", agg(&qcB, &qcA, &qcC), c12Ctx{}, "the same three certificates, other senders"},
+		{"Agg", agg(&qcA, nil, &qcD), c12Ctx{}, "one sender without a certificate"},
+		{"Agg", hotstuff.NewAggregateQC(aggDistinct.QCs(), aggDistinct.Sig(), 8+1<<32), c12Ctx{}, "view + 2^32"},
+	})
+	// sync infos / timeouts / proposals around the same block
+	siA := hotstuff.NewSyncInfoWith(qcA)
+	siAB := hotstuff.NewSyncInfoWith(qcA)
+	siAB.SetAggQC(aggDistinct)
+	siBA := hotstuff.NewSyncInfoWith(qcB)
+	siBA.SetAggQC(aggDistinct)
+	siAT := hotstuff.NewSyncInfoWith(qcA)
+	siAT.SetTC(u.tcFor(blk.View(), []int{0, 1, 2}))
+	fams = append(fams, []c12Var{
+		{"Sync", siA, c12Ctx{}, "base"},
+		{"Sync", siAB, c12Ctx{}, "QC plus aggregate QC with other certificates for the same block"},
+		{"Sync", siBA, c12Ctx{}, "another QC with the same aggregate QC"},
+		{"Sync", siAT, c12Ctx{}, "QC and TC of the same view"},
+	})
+	tmo := func(si hotstuff.SyncInfo, msgSig bool) hotstuff.TimeoutMsg {
+		m := hotstuff.TimeoutMsg{ID: u.ids[0], View: 7, ViewSignature: u.sign(0, hotstuff.View(7).ToBytes()), SyncInfo: si}
+		if msgSig {
+			m.MsgSignature = u.sign(0, m.ToBytes())
+		}
+		return m
+	}
+	t0 := tmo(siA, true)
+	t1 := tmo(hotstuff.NewSyncInfoWith(qcB), true)
+	t2 := tmo(siA, false)
+	t3 := tmo(siAB, true)
+	fams = append(fams, []c12Var{
+		{"Timeout", t0, c12Ctx{peer: t0.ID}, "base"},
+		{"Timeout", t1, c12Ctx{peer: t1.ID}, "another certificate for the same block"},
+		{"Timeout", t2, c12Ctx{peer: t2.ID}, "no message signature"},
+		{"Timeout", t3, c12Ctx{peer: t3.ID}, "with aggregate QC"},
+	})
+	prop := func(qc hotstuff.QuorumCert, b *clientpb.Batch, a *hotstuff.AggregateQC) hotstuff.ProposeMsg {
+		p := hotstuff.NewProposeMsg(u.ids[1], 9, qc, b)
+		p.Block.SetTimestamp(ts)
+		p.AggregateQC = a
+		return p
+	}
+	p0 := prop(qcA, batch, nil)
+	fams = append(fams, []c12Var{
+		{"Proposal", p0, c12Ctx{peer: p0.ID}, "base"},
+		{"Proposal", prop(qcA, c12Batch(2, 6), nil), c12Ctx{peer: p0.ID}, "other commands (equivocation)"},
+		{"Proposal", prop(qcA, batch, &aggSame), c12Ctx{peer: p0.ID}, "with aggregate QC"},
+		{"Proposal", prop(qcA, batch, &aggDistinct), c12Ctx{peer: p0.ID}, "aggregate QC with other certificates for the block's QC block"},
+		{"Proposal", prop(qcB, batch, &aggDistinct), c12Ctx{peer: p0.ID}, "another block QC, same aggregate QC"},
+		{"Proposal", p0, c12Ctx{peer: p0.ID, kauri: true}, "base through a Kauri tree"},
+	})
+	return fams
+}
+
+func (h *c12H) runFamilies(u *c12Universe) {
+	for _, fam := range h.families(u) {
+		for i := 1; i < len(fam); i++ {
+			for _, w := range []c12Var{fam[0], fam[i]} { // base, variant, base, next variant, ...
+				h.v.Count("family." + w.kind)
+				h.roundTrip(u, w.kind, w.x, w.c, map[string]any{"gen": "family", "variant": w.what, "ids": fmt.Sprint(u.ids)})
+			}
+		}
+		h.roundTrip(u, fam[0].kind, fam[0].x, fam[0].c, map[string]any{"gen": "family", "variant": "base, once more", "ids": fmt.Sprint(u.ids)})
+	}
+}
+
+// boundary sizes and nil-versus-empty shapes built through the exported constructors
+func (h *c12H) runShapes(u *c12Universe) {
+	r := h.v.rng
+	var hash hotstuff.Hash
+	r.Read(hash[:])
+	multi := func(n int) hotstuff.QuorumSignature {
+		ids := make([]hotstuff.ID, n)
+		for i := range ids {
+			ids[i] = hotstuff.ID(i*257 + 1)
+		}
+		switch u.scheme {
+		case crypto.NameECDSA:
+			sigs := make([]*crypto.ECDSASignature, n)
+			for i := range sigs {
+				sigs[i] = crypto.RestoreECDSASignature([]byte{byte(i), byte(i >> 8)}[:i%3], ids[i])
+			}
+			return crypto.NewMulti(sigs...)
+		case crypto.NameEDDSA:
+			sigs := make([]*crypto.EDDSASignature, n)
+			for i := range sigs {
+				sigs[i] = crypto.RestoreEDDSASignature([]byte{byte(i), byte(i >> 8)}[:i%3], ids[i])
+			}
+			return crypto.NewMulti(sigs...)
+		}
+		bf := make([]byte, (n+7)/8)
+		for i := 0; i < n; i++ {
+			bf[i/8] |= 1 << uint(i%8)
+		}
+		if n == 0 && r.Intn(2) == 0 {
+			bf = nil
+		}
+		point := make([]byte, 96)
+		point[0] = 0xc0
+		s, err := crypto.RestoreBLS12AggregateSignature(point, crypto.BitfieldFromBytes(bf))
+		if err != nil {
+			panic(err)
+		}
+		return s
+	}
+	for _, n := range []int{0, 1, 8, 9, 255, 256, 257} {
+		sig := multi(n)
+		meta := func(what string) map[string]any {
+			return map[string]any{"gen": "shape", "what": what, "participants": n}
+		}
+		h.v.Count("shape.participants")
+		h.roundTrip(u, "QC", hotstuff.NewQuorumCert(sig, 5, hash), c12Ctx{}, meta("certificate with n participants"))
+		if n == 0 || n >= 255 {
+			b := hotstuff.NewBlock(hash, hotstuff.NewQuorumCert(sig, 5, hash), c12Batch(1, 3), 6, u.ids[0])
+			h.roundTrip(u, "Block", b, c12Ctx{}, meta("block whose certificate has n participants"))
+			h.roundTrip(u, "TC", hotstuff.NewTimeoutCert(sig, 6), c12Ctx{}, meta("timeout certificate with n participants"))
+		}
+	}
+	// nil versus empty
+	empty := multi(0)
+	q, _ := h.randQC(u)
+	tm := hotstuff.TimeoutMsg{ID: u.ids[0], View: 3, ViewSignature: empty, MsgSignature: empty, SyncInfo: hotstuff.NewSyncInfoWith(q)}
+	h.roundTrip(u, "Timeout", tm, c12Ctx{peer: tm.ID}, map[string]any{"gen": "shape", "what": "empty (non-nil) view and message signatures"})
+	tm.MsgSignature = nil
+	h.roundTrip(u, "Timeout", tm, c12Ctx{peer: tm.ID}, map[string]any{"gen": "shape", "what": "empty view signature, nil message signature"})
+	h.roundTrip(u, "PC", hotstuff.NewPartialCert(empty, hash), c12Ctx{}, map[string]any{"gen": "shape", "what": "partial certificate with an empty signature"})
+	h.roundTrip(u, "Agg", hotstuff.NewAggregateQC(nil, empty, 4), c12Ctx{}, map[string]any{"gen": "shape", "what": "nil QC map, empty signature"})
+	h.roundTrip(u, "Agg", hotstuff.NewAggregateQC(map[hotstuff.ID]hotstuff.QuorumCert{}, nil, 0), c12Ctx{}, map[string]any{"gen": "shape", "what": "empty QC map, nil signature"})
+	h.roundTrip(u, "Agg", hotstuff.NewAggregateQC(map[hotstuff.ID]hotstuff.QuorumCert{0: {}, 1: hotstuff.NewQuorumCert(empty, 0, hash), 257: hotstuff.NewQuorumCert(nil, 0, hash), 65537: q},
+		empty, 1<<32), c12Ctx{}, map[string]any{"gen": "shape", "what": "senders 0, 1, 257, 65537 (equal low bits) with zero / empty-signature / unsigned / signed certificates"})
+	si := hotstuff.NewSyncInfoWith(hotstuff.QuorumCert{})
+	si.SetTC(hotstuff.NewTimeoutCert(nil, 0))
+	si.SetAggQC(hotstuff.AggregateQC{})
+	h.roundTrip(u, "Sync", si, c12Ctx{}, map[string]any{"gen": "shape", "what": "all parts present and zero"})
 }
 
 // ---------------------------------------------------------------------------------------------
@@ -1647,10 +2003,19 @@ func TestVerifC12(t *testing.T) {
 	h.fp = v.Stream("frompb", "mismatches", 250)
 	r := v.rng
 	n := v.Pick(4, 5)
-	var us []*c12Universe
-	for _, s := range []string{crypto.NameECDSA, crypto.NameEDDSA, crypto.NameBLS12} {
-		us = append(us, c12NewUniverse(t, s, n))
+	dense := make([]hotstuff.ID, n)
+	for i := range dense {
+		dense[i] = hotstuff.ID(i + 1)
 	}
+	var us, sparse []*c12Universe
+	for _, s := range []string{crypto.NameECDSA, crypto.NameEDDSA, crypto.NameBLS12} {
+		us = append(us, c12NewUniverse(t, s, dense))
+	}
+	// replicas with sparse, large ids that agree in their low bits (real keys, so verdicts are "accept")
+	sparse = append(sparse,
+		c12NewUniverse(t, crypto.NameECDSA, []hotstuff.ID{2, 258, 65538, 1<<31 + 2, math.MaxUint32}[:n]),
+		c12NewUniverse(t, crypto.NameEDDSA, []hotstuff.ID{3, 1<<16 + 3, 1<<24 + 3, 1<<31 + 3, math.MaxUint32 - 1}[:n]),
+		c12NewUniverse(t, crypto.NameBLS12, []hotstuff.ID{1, 9, 264, 1000, 2049}[:n]))
 
 	// ---- (a) exhaustive small scope -------------------------------------------------------
 	// objects without a signature scheme
@@ -1735,6 +2100,37 @@ func TestVerifC12(t *testing.T) {
 			}
 		}
 	}
+
+	// ---- (a') sparse ids, families, boundary shapes ----------------------------------------------
+	for _, u := range sparse {
+		blk := u.blocks[2]
+		subsets := c12Subsets(u.n)
+		if u.scheme == crypto.NameBLS12 && !v.Thorough() {
+			subsets = c12Subsets(3)
+		}
+		for _, s := range subsets {
+			ords := c12Orders(s)
+			if u.scheme == crypto.NameBLS12 || !v.Thorough() {
+				ords = ords[len(ords)-1:] // quick: the rotated (unsorted) order only
+			}
+			for _, ord := range ords {
+				meta := func() map[string]any {
+					return map[string]any{"gen": "exhaustive, sparse ids", "signers": fmt.Sprint(ord), "ids": fmt.Sprint(u.ids)}
+				}
+				h.roundTrip(u, "QC", u.qcFor(blk, ord), c12Ctx{}, meta())
+				h.roundTrip(u, "TC", u.tcFor(c12Views[len(s)%len(c12Views)]+3, ord), c12Ctx{}, meta())
+			}
+		}
+		for i := 0; i < u.n; i++ {
+			h.roundTrip(u, "PC", u.pcFor(blk, i), c12Ctx{}, map[string]any{"gen": "exhaustive, sparse ids", "signer": uint32(u.ids[i])})
+		}
+	}
+	for _, u := range append(append([]*c12Universe{}, us...), sparse...) {
+		h.runFamilies(u)
+		h.runShapes(u)
+	}
+	all := append(append([]*c12Universe{}, us...), sparse...)
+	nonBLS := []*c12Universe{us[0], us[1], sparse[0], sparse[1]}
 
 	// ---- (b) seeded random stream of Go-constructed objects ---------------------------------
 	kindsList := []string{"Sig", "PC", "QC", "TC", "Agg", "Sync", "Timeout", "Block", "Proposal", "Block", "Timeout",
@@ -1825,9 +2221,9 @@ func TestVerifC12(t *testing.T) {
 		}
 	}
 	for i, N := 0, v.Pick(700, 8000); i < N; i++ {
-		u := us[r.Intn(len(us))]
+		u := all[r.Intn(len(all))]
 		if u.scheme == crypto.NameBLS12 && r.Intn(2) == 0 {
-			u = us[r.Intn(2)] // BLS signing is slow: half as many
+			u = nonBLS[r.Intn(len(nonBLS))] // BLS signing is slow: half as many
 		}
 		kind := kindsList[r.Intn(len(kindsList))]
 		x, c, meta := gen(u, kind)
@@ -1850,9 +2246,9 @@ func TestVerifC12(t *testing.T) {
 	h.fromPbOnly("Proposal", &Proposal{Block: &Block{}}, c12Ctx{peer: 3}, map[string]any{"gen": "proposal with empty block"})
 	h.fromPbOnly("Proposal", &Proposal{Block: &Block{Proposer: 7}}, c12Ctx{peer: 3, kauri: true}, map[string]any{"gen": "kauri proposal with empty block"})
 	for i, N := 0, v.Pick(700, 8000); i < N; i++ {
-		u := us[r.Intn(len(us))]
+		u := all[r.Intn(len(all))]
 		if u.scheme == crypto.NameBLS12 && r.Intn(3) != 0 {
-			u = us[r.Intn(2)]
+			u = nonBLS[r.Intn(len(nonBLS))]
 		}
 		kind := kindsList[r.Intn(len(kindsList))]
 		x, c, meta := gen(u, kind)
